@@ -865,6 +865,9 @@ func (h *c08hist) wideOp(x int, same func() int) (ref.Instr, bool) {
 			return ref.Instr{Op: "softmax", In: []int{x}, Dim: r.Intn(rank)}, true
 		}
 	case 14:
+		if r.Intn(2) == 0 { // an explicit Broadcast to the tensor's OWN shape: nothing is expanded, it is an operation like any other
+			return ref.Instr{Op: "broadcast", In: []int{x}, Shape: ref.CopyInts(v.Shape)}, true
+		}
 		if h.allowExpand && len(v.Data) <= 32 {
 			h.expands = true
 			return ref.Instr{Op: "broadcast", In: []int{x}, Shape: append([]int{2}, v.Shape...)}, true
